@@ -218,6 +218,40 @@ func c13r3(c *Check) {
 		}
 		c.Judge(guarded, fmt.Sprintf("input.Pickle.Handle unchecked assertion .(%s) #%d", types.TypeString(ta.AssertedType, nil), n), c.At(ta), "repeats a checked assertion of the same type on the same slot", "a type assertion without comma-ok is applied to data decoded from the network without a guarding type test: a crafted pickle panics the relay")
 	})
+	// scalar formatting: ints verbatim (%d), float values to six decimals (%f), float timestamps as integers (%.0f)
+	got := map[string]bool{}
+	allInstrs(fn, func(in ssa.Instruction) {
+		call, ok := in.(*ssa.Call)
+		if !ok || calleeName(call.Common()) != "fmt.Sprintf" {
+			return
+		}
+		f, _ := constString(call.Call.Args[0])
+		slot := int64(-1)
+		if sl, ok := call.Call.Args[1].(*ssa.Slice); ok {
+			if al, ok := sl.X.(*ssa.Alloc); ok {
+				for _, r := range *al.Referrers() {
+					if ia, ok := r.(*ssa.IndexAddr); ok {
+						for _, rr := range *ia.Referrers() {
+							if st, ok := rr.(*ssa.Store); ok {
+								if sk, ok := slotOf(st.Val); ok {
+									slot = sk.idx
+								}
+							}
+						}
+					}
+				}
+			}
+		}
+		got[fmt.Sprintf("slot%d:%s", slot, f)] = true
+	})
+	wantF := []string{"slot1:%d", "slot1:%f", "slot0:%d", "slot0:%.0f"}
+	okF := len(got) == len(wantF)
+	for _, w := range wantF {
+		if !got[w] {
+			okF = false
+		}
+	}
+	c.Judge(okF, "input.Pickle.Handle scalar formatting", c.AtFn(fn), "value: %d / %f; timestamp: %d / %.0f", fmt.Sprintf("scalar formats are %v: integers must be rendered verbatim, float values with six decimals, float timestamps as integers", keysOf(got)))
 	// line construction: buf = []byte(metric + " " + value + " " + timestamp)
 	allInstrs(fn, func(in ssa.Instruction) {
 		if !isCallNamed(in, nDispatch) {
@@ -480,4 +514,13 @@ func isAccumulator(v ssa.Value) bool {
 		}
 	}
 	return false
+}
+
+func keysOf(m map[string]bool) []string {
+	var out []string
+	for k := range m {
+		out = append(out, k)
+	}
+	sort.Strings(out)
+	return out
 }
